@@ -133,7 +133,9 @@ func H_C12_step() {
 			i = 0
 		}
 		in, out := verif.BigInt("pre-incoming"), verif.BigInt("pre-outgoing")
-		verif.Assume(!in.IsNegative() && !out.IsNegative() && in.LT(math.NewIntWithDecimal(1, 70)) && out.LT(math.NewIntWithDecimal(1, 70)))
+		// any recorded totals, up to the largest value the type holds: an accumulation that no longer fits aborts the
+		// transaction today (math.Int panics above 256 bits), so the transfer is not a successful one
+		verif.Assume(!in.IsNegative() && !out.IsNegative())
 		pre[i] = dispatchertypes.AmountDispatched{Incoming: in, Outgoing: out}
 		must(d.SetDispatchedAmount(ctx, &keys[i].src, &keys[i].dst, keys[i].denom, pre[i]))
 	}
@@ -155,7 +157,12 @@ func H_C12_step() {
 	w.L.Set(core.ModuleAddress, nativeDenom, A)
 	w.CCTP.faults, w.Hyp.faults, w.Int.faults = true, true, true
 	d0 := verif.StateDigest(ctx)
-	err = d.DispatchPayload(ctx, ta, pl)
+	err, aborted := verif.AtomicallyOrAbort(ctx, func(ctx sdk.Context) error { return d.DispatchPayload(ctx, ta, pl) })
+	if aborted {
+		verif.Cover("transaction-aborted")
+		verif.Assert(verif.StateDigest(ctx) == d0, "aborted-transfer-leaves-statistics-unchanged")
+		return
+	}
 	if err != nil {
 		verif.Cover("transfer-refused")
 		verif.Assert(verif.StateDigest(ctx) == d0, "refused-transfer-leaves-statistics-unchanged")
@@ -168,21 +175,22 @@ func H_C12_step() {
 			continue
 		}
 		got := d.GetDispatchedAmount(ctx, &k.src, &k.dst, k.denom).AmountDispatched
-		wantIn, wantOut := pre[i].Incoming, pre[i].Outgoing
+		// expected totals in unbounded integers (the reference must not wrap or panic where the code might)
+		wantIn, wantOut := verif.ZOf(pre[i].Incoming), verif.ZOf(pre[i].Outgoing)
 		if i == 0 {
-			wantIn = wantIn.Add(A)
+			wantIn = verif.ZAdd(wantIn, verif.ZOf(A))
 			if dstDenom == nativeDenom {
-				wantOut = wantOut.Add(out)
+				wantOut = verif.ZAdd(wantOut, verif.ZOf(out))
 			}
 		}
 		if i == 1 {
-			wantOut = wantOut.Add(out)
+			wantOut = verif.ZAdd(wantOut, verif.ZOf(out))
 		}
 		if i <= 1 {
-			verif.Assert(got.Incoming.Equal(wantIn), "incoming-total-accumulates-the-received-amount")
-			verif.Assert(got.Outgoing.Equal(wantOut), "outgoing-total-accumulates-the-forwarded-amount")
+			verif.Assert(verif.ZEq(verif.ZOf(got.Incoming), wantIn), "incoming-total-accumulates-the-received-amount")
+			verif.Assert(verif.ZEq(verif.ZOf(got.Outgoing), wantOut), "outgoing-total-accumulates-the-forwarded-amount")
 		} else {
-			verif.Assert(got.Incoming.Equal(wantIn) && got.Outgoing.Equal(wantOut), "other-entries-unchanged")
+			verif.Assert(verif.ZEq(verif.ZOf(got.Incoming), wantIn) && verif.ZEq(verif.ZOf(got.Outgoing), wantOut), "other-entries-unchanged")
 		}
 	}
 	for i, k := range ckeys {
